@@ -202,7 +202,7 @@ def run(module, cfg, *, workers=None, env=None, simulate=None, depth=None, seed=
         workers = min(16, os.cpu_count() or 1)
     if os.environ.get("VERIF_WORKERS") and workers != 1:       # tools/xmatrix.py runs several trees side by side
         workers = min(workers, int(os.environ["VERIF_WORKERS"]))
-    cmd = ["java", "-XX:+UseParallelGC", "-Xmx8g"]
+    cmd = ["java", "-XX:+UseParallelGC", "-Xmx8g", "-Djava.io.tmpdir=" + meta]      # TLC leaves an empty tlc-<n> directory in the JVM's tmpdir on every run
     if deque:
         cmd.append("-Dtlc2.tool.queue.IStateQueue=StateDeque")
     cmd += ["-cp", JAR, "tlc2.TLC", "-workers", str(workers), "-metadir", meta, "-noGenerateSpecTE",
